@@ -102,12 +102,23 @@ def render_conf(modules, moddir, timeout=None, services=(), rules=(), logs=(), e
 
 
 class Daemon:
-    def __init__(self, conf_text, workdir, debug=False, detect_leaks=True, binary=None):
+    def __init__(self, conf_text, workdir, debug=False, detect_leaks=True, binary=None, how="rewrite"):
+        """how: the way a new configuration is installed before SIGUSR1 - "rewrite" the file in place, "rename" a new
+        file over it, or start from a "symlink" and re-point it at a new file."""
         self.workdir = workdir
         os.makedirs(workdir, exist_ok=True)
         self.conf_path = os.path.join(workdir, "iauthd.conf")
-        with open(self.conf_path, "w", encoding="latin-1") as fh:
-            fh.write(conf_text)
+        self.how = how
+        self.gen = 0
+        if how == "symlink":
+            with open(self.conf_path + ".0", "w", encoding="latin-1") as fh:
+                fh.write(conf_text)
+            if os.path.lexists(self.conf_path):
+                os.unlink(self.conf_path)
+            os.symlink("iauthd.conf.0", self.conf_path)
+        else:
+            with open(self.conf_path, "w", encoding="latin-1") as fh:
+                fh.write(conf_text)
         self.errpath = os.path.join(workdir, "stderr.txt")
         self.binary = binary or os.path.join(vc.build_daemon(), "iauthd-c")
         args = [self.binary, "-n", "-f", self.conf_path]
@@ -257,20 +268,38 @@ class Daemon:
                 os.read(self.ifd, 4096)
         except (BlockingIOError, OSError):
             pass
-        with open(self.conf_path, "w", encoding="latin-1") as fh:
-            fh.write(new_conf_text)
+        self.gen += 1
+        if self.how == "rewrite":
+            with open(self.conf_path, "w", encoding="latin-1") as fh:
+                fh.write(new_conf_text)
+        else:
+            newp = "%s.%d" % (self.conf_path, self.gen)
+            with open(newp, "w", encoding="latin-1") as fh:
+                fh.write(new_conf_text)
+            if self.how == "rename":
+                os.replace(newp, self.conf_path)                 # atomic replacement under the same name
+            else:
+                tmp = self.conf_path + ".lnk"
+                if os.path.lexists(tmp):
+                    os.unlink(tmp)
+                os.symlink(os.path.basename(newp), tmp)
+                os.replace(tmp, self.conf_path)                  # the name the daemon was given now points at the new file
         wd = _libc.inotify_add_watch(self.ifd, self.conf_path.encode(), IN_CLOSE_NOWRITE)
         if wd < 0:
             raise vc.MachineryError("inotify_add_watch failed")
         try:
             os.kill(self.p.pid, signal.SIGUSR1)
-            r, _, _ = select.select([self.ifd], [], [], timeout)
+            r, _, _ = select.select([self.ifd], [], [], min(timeout, 3.0))
             if not r:
                 if self.p.poll() is not None:
                     self.died = True
                     raise DaemonDied([])
-                raise DaemonHang()
-            os.read(self.ifd, 4096)
+                # nobody closed that file within three seconds: the daemon is busy, or it read something else (a path it
+                # remembered from start-up, say).  The signal was delivered long ago; go on and let the oracle judge what
+                # the daemon does next (a daemon that is really stuck shows at the barrier).
+                self.reload_unobserved = getattr(self, "reload_unobserved", 0) + 1
+            else:
+                os.read(self.ifd, 4096)
         finally:
             _libc.inotify_rm_watch(self.ifd, wd)
         return self.barrier()
